@@ -7,7 +7,10 @@
 (*   [names  : the index column "name" (sequence of names),                *)
 (*    cols   : data column name -> sequence of cells (same length),        *)
 (*    order  : the column list, index included,                            *)
-(*    sc     : scalar (non-column) entries,                                *)
+(*    sc     : scalar (non-column) entries: "z" a number; "q", "r", "u"      *)
+(*             VECTORS of length 2, 1, 3 (the binding gives their values):  *)
+(*             some derived table has exactly that many rows, and the entry *)
+(*             must still be carried over whole,                            *)
 (*    aid    : data column name -> identity of the array holding it,       *)
 (*    kind   : "plain" | "transposed" | "concat" (column order unspecified)]*)
 (* The specification has VALUE semantics: a derivation appends a new table *)
@@ -44,12 +47,12 @@ SelRows(t, pos) == Mk(Sub(t.names, pos), [c \in DOMAIN t.cols |-> Sub(t.cols[c],
 
 Root(n) ==
   CASE n = "T3" -> Mk(<<"a", "b", "a">>, [c \in DataCols |-> CASE c = "a" -> <<1, 2, 3>> [] c = "b" -> <<4, 5, 6>> [] c = "s" -> <<7, 8, 9>>],
-                      <<"name", "a", "b", "s">>, {"q"}, [c \in DataCols |-> CASE c = "a" -> 1 [] c = "b" -> 2 [] c = "s" -> 3], "plain")
+                      <<"name", "a", "b", "s">>, {"q", "r", "u"}, [c \in DataCols |-> CASE c = "a" -> 1 [] c = "b" -> 2 [] c = "s" -> 3], "plain")
     [] n = "T0" -> Mk(<<>>, [c \in {"a", "b"} |-> <<>>], <<"a", "name", "b">>, {}, [c \in {"a", "b"} |-> IF c = "a" THEN 4 ELSE 5], "plain")
     [] n = "T1" -> Mk(<<"c">>, [c \in {"a", "b"} |-> IF c = "a" THEN <<10>> ELSE <<20>>], <<"name", "b", "a">>, {"q", "r"},
                       [c \in {"a", "b"} |-> IF c = "a" THEN 6 ELSE 7], "plain")
     [] n = "T2" -> Mk(<<"b", "c">>, [c \in DataCols |-> CASE c = "a" -> <<0, 0 - 1>> [] c = "b" -> <<2, 2>> [] c = "s" -> <<1, 1>>],
-                      <<"name", "a", "b", "s">>, {}, [c \in DataCols |-> CASE c = "a" -> 8 [] c = "b" -> 9 [] c = "s" -> 10], "plain")
+                      <<"name", "a", "b", "s">>, {"q"}, [c \in DataCols |-> CASE c = "a" -> 8 [] c = "b" -> 9 [] c = "s" -> 10], "plain")
 
 Init == /\ \E r \in Roots : heap = [i \in 1..Len(r) |-> Root(r[i])]
         /\ naid = 20
